@@ -340,6 +340,15 @@ namespace
             bool sub = false;
             auto tp  = gen_time(c, sub);
             H::Date h { FullDate(tp) };
+            {
+                // (by the time's value) the same instant written in one of FullDate's other formats just before
+                auto ticks = tp.time_since_epoch().count();
+                if (ticks % 3)
+                {
+                    std::ostringstream log;
+                    FullDate(tp).write(log, ticks % 3 == 1 || ticks % 3 == -1 ? FullDate::Type::RFC850 : FullDate::Type::AscTime);
+                }
+            }
             nt   = true;
             desc = "Date: " + write_of(h);
             rep.label(sub ? "type:Date(subsecond)" : "type:Date");
